@@ -13,7 +13,8 @@ LEVEL_TEXT = ("Theorems for all buffer lengths, chunk sizes >= 1, offsets 0 <= o
               "and compares the model with the real chunk() (scripted fn, including over-reporting and the panic) and with Client.ReadAt/WriteAt "
               "through the real client, the real server and a sparse in-memory backend (msize 154 .. 1 MiB, offsets at/after EOF and above 2^32).")
 LEVEL_NOTE = ("Trusted: Coq kernel + vm_compute; the hand model Client/Chunk.v is tied to the Go code only by the differential cases; for msize >= 2201 "
-              "the end-to-end comparison is at length level (requests, counts, result) and the content check is done by the harness in Go; "
+              "the end-to-end comparison is at length level (requests, counts, result) and the content check is done by the harness in Go (for runs longer than 30000 bytes also the 'fills p up to end of file / n = len p' "
+              "check; for all other runs it is ChunkCases.fills_to_eof, judged on the backend's log against the file); "
               "one Twrite/Tread is modelled as seen by the client (count or error): an Rlerror carries no count, so a backend that stores bytes "
               "and also fails is outside the write theorem; a server that returns more than asked is outside the property.")
 DESIGN_REF = "6/C11"
@@ -28,6 +29,8 @@ TRUSTED_BASE = [
     "axioms: none (Print Assumptions: closed under the global context for every property theorem)",
     "hand-written model Client/Chunk.v, tied by harness/p9/c11_test.go + Client/ChunkCases.v",
     "Fs/Version.v payload_of (C12) for the payload size of a negotiated msize",
+    "props/C11.py to_case (tape encoding: WErrStored from the 'stored' flag, 'big' = len p + cs + 1 standing for 'all'), harness twins: vh11File (sparse backend), "
+    "vh11PatternAC + ChunkCases.pattern (the same byte pattern generated twice), vhclVerConn/vhclPairGrant (granted msize forced by rewriting the Rversion frame), Go-side content check of runs > 30000 bytes",
 ]
 
 
@@ -162,9 +165,12 @@ def run(ctx):
         "evaluations": len(obs),
         "distinct_nontrivial": distinct,
         "rule": "chunk() direct: chunk sizes 1..16 x lengths k*cs+-1 x offsets {0,5,2^32+3,2^62} + random (short counts, errors with and without count, "
-                "EOF, over-reporting); end to end: msize {154..1177} with content in Coq, msize {2201..1MiB(+4MiB thorough)} at length level, lengths k*payload+-1, "
+                "EOF, over-reporting); end to end: msize {154..1177} with content in Coq, msize {2201, 4096, 8192, 65536, 131072 (chunks of 130560 bytes > 65535), 1 MiB (two combinations in the quick tier; +4097, 1 MiB+1 and all "
+                "combinations thorough)} at length level with the largest measured chunk recorded below, lengths k*payload+-1, "
                 "offsets 0/inside/at EOF/after EOF/>2^32/>2^40, tapes: none, one short count, one error, several short counts; distinct = distinct records",
-        "correspondence": {"cases": len(obs), "mismatches": nm, "by_kind": kinds, "multi_chunk_runs": multi},
+        "correspondence": {"cases": len(obs), "mismatches": nm, "by_kind": kinds, "multi_chunk_runs": multi,
+                           "largest_chunk_issued": max([c.get("len", 0) for o in obs for c in (o.get("calls") or [])] + [0]),
+                           "largest_msize": max([o.get("msize", 0) for o in obs] + [0])},
         "samples": [small(next(o for o in obs if o["kind"] == "bigwrite")),
                     small(next(o for o in obs if o["kind"] == "direct" and len(o["calls"] or []) > 2)),
                     small(next(o for o in obs if o["kind"] == "write" and len(o["calls"] or []) > 1)),
